@@ -4,6 +4,7 @@ import (
 	"encoding/json"
 	"fmt"
 	"os"
+	"strings"
 	"testing"
 	"time"
 
@@ -239,6 +240,25 @@ func runCase(t ev.TB, c *chainCase, partName string) {
 		ev.Fail(t, partName, sig, "request %d: after %s nothing happened any more (reproduced twice, %v each): no reply, no clean-up of the stream; %d passes through the proxy's phase loop were needed\nobserved: %s\ncase: %s",
 			r, last, eventDeadline, passes, ob, c.canonical())
 	}
+	f := evaluate(c, tokens, obs)
+	if f != nil && strings.Contains(f.sig, "client/no-reply") {
+		// the only verdict that rests on "nothing arrived within a period": it has to reproduce on a fresh listener
+		tokens, obs = execute(t, c)
+		if stalled(obs) >= 0 {
+			inconclusive(t, c, "stall in the confirmation run of %s", f.sig)
+		}
+		if f = evaluate(c, tokens, obs); f == nil {
+			inconclusive(t, c, "a missing reply did not reproduce")
+		}
+	}
+	if f != nil {
+		ev.Fail(t, partName, f.sig, "%s", f.msg)
+	}
+}
+
+// evaluate judges every request; a request that executed a re-match / re-choose verdict outside its phase is
+// consistent if either reading of that verdict explains what happened.
+func evaluate(c *chainCase, tokens []string, obs []observed) *failure {
 	for r := range obs {
 		a := simulate(c, r, tokens[r], modeContinue)
 		f := judge(c, r, &a, &obs[r])
@@ -247,9 +267,8 @@ func runCase(t ev.TB, c *chainCase, partName string) {
 		}
 		b := simulate(c, r, tokens[r], modeEndPass)
 		if a.Misplaced == 0 && b.Misplaced == 0 {
-			ev.Fail(t, partName, f.sig, "%s", f.msg)
+			return f
 		}
-		// a re-match / re-choose verdict outside its phase was executed: the other reading is acceptable too
 		if judge(c, r, &b, &obs[r]) == nil {
 			continue
 		}
@@ -260,8 +279,9 @@ func runCase(t ev.TB, c *chainCase, partName string) {
 			// cursor for every re-match/re-choose status, the proxy re-enters only for the honoured phase
 			sig = "misplaced-redo/cursor-kept:next-phase-starts-at-the-requesting-filter"
 		}
-		ev.Fail(t, partName, sig, "a re-match/re-choose verdict in a phase that does not honour it: neither reading (counts as continue / ends the pass) explains what happened; under both the filters of the following phases run from the first one\n%s", f.msg)
+		return &failure{sig, "a re-match/re-choose verdict in a phase that does not honour it: neither reading (counts as continue / ends the pass) explains what happened; under both the filters of the following phases run from the first one\n" + f.msg}
 	}
+	return nil
 }
 
 func stalled(obs []observed) int {
